@@ -26,6 +26,8 @@ def run(prog: Program, rep: Report):
     rule_derived_state(prog, rep, "C06.R9", cf.cls, {cf.dict_field, cf.list_field}, public_entry_points(prog, cf.cls), config={cf.cap_field},
                        what="a snapshot of the order, a remembered node or a bound method of the list must not survive a store, delete, "
                             "eviction or clear")
+    from .ownership import rule_no_class_state
+    rule_no_class_state(prog, rep, "C06.R10", [cf.cls, cf.lf.lst])
 
 
 class _UseMoves(Client):
